@@ -459,8 +459,8 @@ def same_dim_spelling(a, b):
     serialisation of the source token, so exotic spellings (`+.5rpx`, `1e2rpx`, more than 6 digits) come back
     normalised; a plain decimal spelling must come back character for character."""
     mb = re.match(r"^(-?(?:0|[1-9][0-9]*)(?:\.[0-9]*[1-9])?)([a-zA-Z%]*)$", b)
-    if mb and len(re.sub(r"[-.]", "", mb.group(1)).lstrip("0")) <= 6:
-        return a == b
+    if mb and ("." not in mb.group(1) or len(re.sub(r"[-.]", "", mb.group(1)).lstrip("0")) <= 6):
+        return a == b  # plain integers of any length, and decimals of up to 6 significant digits
     m1 = re.match(r"^([-+0-9.eE]+)([a-zA-Z%]*)$", a)
     m2 = re.match(r"^([-+0-9.eE]+)([a-zA-Z%]*)$", b)
     try:
@@ -483,6 +483,7 @@ def collect_hosts(rules, chain, out):
 
 WITNESSES = {
     "C08": [("unicode-range-separated", "@font-face{unicode-range:U+0-7F}", {}, lambda r: "U +0 -7F" in r["out"])],
+    "C19": [("form-feed-counted-as-line-break", ".a{color:red}\x0c.b{width:1rpx}\n.c{}", {"class_prefix": "p"}, lambda r: any(m[1] == 17 and m[2] == 1 for m in r.get("map", [])))],
     "C10": [("rpx-in-bare-at-prelude", "@a 75rpx;", {}, lambda r: "75rpx" in r["out"]), ("six-significant-digits", ".a{z-index:2147483647;width:0.1234567px}", {}, lambda r: "0.123457" in r["out"])],
 }
 
@@ -522,7 +523,7 @@ def run(run, pid, tier, seed, replay=None):
     # witnesses of the recorded findings
     for slug, css, o, pred in WITNESSES.get(pid, []):
         if slug in known:
-            r1 = common.run_gev(gev, "css", [{"id": 0, "css": css, "path": "p", "opts": o, "maps": False, "tokens": False}], shards=1).get(0)
+            r1 = common.run_gev(gev, "css", [{"id": 0, "css": css, "path": "p", "opts": o, "maps": pid == "C19", "tokens": False}], shards=1).get(0)
             if r1 and "out" in r1 and pred(r1):
                 run.known(slug, known[slug])
             else:
